@@ -99,7 +99,7 @@ def run_impl(model, rng, conns, hs_replies, replies, ops, fast=False):
         k = getattr(conn.protocol, "_local_key", None)
         if k is not None and authed.get(conn.cid) != k:
             authed[conn.cid] = k
-            net.log.append(("authok", conn.cid, bytes(k)))
+            net.log.append(("authok", conn.cid, bytes(k), net.loop.time()))
     net.pre_event = pre_event
     simnet.install(net, rnd=lambda n: bytes(rng.randrange(256) for _ in range(n)))
     dev = Device(ip="10.0.0.1", port=6444, device_id=123456, device_type=0xAC)
@@ -108,11 +108,13 @@ def run_impl(model, rng, conns, hs_replies, replies, ops, fast=False):
     bad_key = bytes((b ^ 0x55) for b in good_key)
     bad_tok = bytes((b ^ 0x55) for b in good_tok)
     events, outcomes = [], []
+    etimes = []
     opinfo = []
 
     def scan():
         """turn what happened on the wire since the last scan into events (in order)"""
         for tag in net.log[scan.pos:]:
+            n_before = len(events)
             if tag[0] == "connect" and tag[1] == "ok":
                 pass
             elif tag[0] == "authok":
@@ -154,6 +156,8 @@ def run_impl(model, rng, conns, hs_replies, replies, ops, fast=False):
             elif tag[0] == "close":
                 note_conn(net.conns[tag[1]])
                 events.append([5, tag[1]])
+            t_ev = tag[2] if tag[0] in ("write", "close", "connect") else (tag[3] if tag[0] == "authok" else net.loop.time())
+            etimes.extend([t_ev] * (len(events) - n_before))
         scan.pos = len(net.log)
         for conn in net.conns:
             note_conn(conn)
@@ -162,6 +166,7 @@ def run_impl(model, rng, conns, hs_replies, replies, ops, fast=False):
             if tag[0] == "authok":
                 kid = next((i for i, sk in peer.keys.items() if bytes(sk) == tag[2]), -1)
                 events.append([4, tag[1], kid])
+                etimes.append(tag[3])
         scan.pos = len(net.log)
     scan.pos = 0
     conn_logged = set()
@@ -225,6 +230,8 @@ def run_impl(model, rng, conns, hs_replies, replies, ops, fast=False):
     now = round(net.loop.time() * 1000)
     net.close()
     run_impl.last_opinfo = opinfo
+    etimes.extend([net.loop.time()] * (len(events) - len(etimes)))
+    run_impl.last_event_times = etimes[:len(events)]
     run_impl.last_writes = [(t[1], t[2]) for t in net.log if t[0] == 'write']
     return now, summary, outcomes, events
 
